@@ -15,4 +15,7 @@ Definition upd_monitor (c : upd_case) : bool :=
   let '(g, chain_, from, to, (ran, removed)) := c in
   forallb (fun x => memN x (upto chain_ to) && (negb (memN x (upto chain_ from)) || N.eqb x from)) ran &&
   forallb (fun x => memN x (update_runs chain_ from to)) ran &&
-  forallb (fun x => negb (memN x (upto chain_ to))) removed.
+  forallb (fun x => negb (memN x (upto chain_ to))) removed &&
+  (* ... and nothing is left out: every test of the path is run, every state derived from to_state is removed *)
+  forallb (fun x => memN x ran) (update_runs chain_ from to) &&
+  forallb (fun x => memN x removed) (flag_children (length g) g to true false).
